@@ -229,6 +229,10 @@ func genTrace(r *hx.Rng, eng string, n int, small bool) trace {
 				}
 				tr.ops = append(tr.ops, op{kind: "S", s: s, i: li})
 			}
+			if r.Chance(0.6) {
+				// HyperLogLog writes that are still only in the write cache when the backup begins
+				tr.ops = append(tr.ops, op{kind: "W", s: s, cmds: pfBurst(r, 1+r.Pick(10), 1+r.Pick(20), "w")})
+			}
 			tr.ops = append(tr.ops, op{kind: "B", s: s, t: k.t, i: k.i})
 			made[s] = append(made[s], k)
 			nb[s]++
@@ -239,6 +243,10 @@ func genTrace(r *hx.Rng, eng string, n int, small bool) trace {
 				continue
 			}
 			k, _ := pick(s)
+			if r.Chance(0.3) {
+				// and right before a restore (closing the engine flushes the cache)
+				tr.ops = append(tr.ops, op{kind: "W", s: s, cmds: pfBurst(r, 1+r.Pick(34), 1+r.Pick(40), "r")})
+			}
 			tr.ops = append(tr.ops, op{kind: "R", s: s, t: k.t, i: k.i})
 			if r.Chance(0.3) {
 				tr.ops = append(tr.ops, op{kind: "R", s: s, t: k.t, i: k.i}) // repeated restore
